@@ -363,6 +363,10 @@ class FactFlow:
                     l_, r_ = v.left, v.right
                     if isinstance(l_, ast.Call) and isinstance(l_.func, ast.Name) and l_.func.id == "len" and len(l_.args) == 1 and isinstance(r_, ast.Name) and r_.id != tn:
                         out.add(("DEFLENSUB", tn, norm(l_.args[0]), r_.id))
+                    # exact definition  tn = len(x) - c  with a literal c >= 1: whenever tn >= 0 it is a valid index of x
+                    if isinstance(l_, ast.Call) and isinstance(l_.func, ast.Name) and l_.func.id == "len" and len(l_.args) == 1 and (const_int(r_) or 0) >= 1 \
+                            and isinstance(l_.args[0], (ast.Name, ast.Attribute)):
+                        out.add(("LENMINUS", tn, norm(l_.args[0]), const_int(r_)))
                 if isinstance(v, ast.Constant) and (v.value is None or isinstance(v.value, str)):
                     out.add(("EQ", tn, repr(v.value)))
                 if isinstance(v, ast.Call) and self.nn_call is not None and self.nn_call(v):
